@@ -3,6 +3,7 @@
 package mailbox
 
 import (
+	"context"
 	"net"
 	"time"
 )
@@ -69,7 +70,31 @@ func VH_C11_Session() {
 	// variant, only after one side has closed it (between the two closes)
 	late := !eager && vBool("late_reentry")
 	if !eager && !late {
-		again()
+		if vBool("expired_dial") {
+			// A dial attempt whose context expires while the first connection
+			// is still open (a bounded grpc.DialContext): it may keep waiting
+			// or give up with an error, but neither it nor the attempt after
+			// it may hand out a second connection.
+			ctx2, cancel2 := context.WithTimeout(s.ctx, 5*time.Second)
+			go func() { c, err := s.cli.Dial(ctx2, "relay"); dia <- vConnResult{c, err} }()
+			time.Sleep(10 * time.Second)
+			cancel2()
+			select {
+			case r := <-dia:
+				vAssert(r.err != nil, "Dial handed out a second connection while the previous one is still open (after its context expired)")
+				if r.err == nil {
+					return
+				}
+				vReach("expired-dial-gave-up")
+				go func() { c, err := s.cli.Dial(s.ctx, "relay"); dia <- vConnResult{c, err} }()
+			default:
+				// still waiting for the previous connection to be closed:
+				// this attempt is the pending Dial from here on
+			}
+			go func() { c, err := s.srv.Accept(); acc <- vConnResult{c, err} }()
+		} else {
+			again()
+		}
 	}
 	if !late {
 		select {
